@@ -699,6 +699,18 @@ static URI_INLINE int URI_FUNC(NormalizeSyntaxEngine)(URI_TYPE(Uri) * uri,
 			while (walker != NULL) {
 				if (!URI_FUNC(FixPercentEncodingMalloc)(&(walker->text.first),
 						&(walker->text.afterLast), memory)) {
+					/* Free the segment texts duplicated so far: the path is
+					 * not marked as done yet and the URI is not owner yet,
+					 * so nobody else would free them */
+					URI_TYPE(PathSegment) * ranger = uri->pathHead;
+					while (ranger != walker) {
+						if (ranger->text.afterLast > ranger->text.first) {
+							memory->free(memory, (URI_CHAR *)ranger->text.first);
+						}
+						ranger->text.first = URI_FUNC(SafeToPointTo);
+						ranger->text.afterLast = URI_FUNC(SafeToPointTo);
+						ranger = ranger->next;
+					}
 					URI_FUNC(PreventLeakage)(uri, doneMask, memory);
 					return URI_ERROR_MALLOC;
 				}
